@@ -575,6 +575,22 @@ class AMAlias(AM):
     __aexit__ = aclose
 
 
+class AMDeleg(AM):
+    """__aexit__ is a plain function that hands the awaitable of the real exit back (the delegation idiom): user code runs
+    during the CALL of __aexit__, before anything is awaited"""
+
+    def __aexit__(self, et, ev, tb):
+        assert S.sh[-1][0] is self
+        S.sh[-1][1] = True
+        prev, S.inflight = S.inflight, self
+        self.exit_exc = et is not None
+        try:
+            probe(self.k, ["aexit", self.k])
+        finally:
+            S.inflight = prev
+        return AM.__aexit__(self, et, ev, tb)
+
+
 def _logged(fn):
     import functools
 
@@ -798,6 +814,9 @@ class R:
         cls = "AM" if is_async else "M"
         if S.allow_alias and it.get("exitname") in ("Alias", "Deco"):
             cls += it["exitname"]
+        elif it.get("exitname") == "Deleg":
+            if is_async:
+                cls += "Deleg"
         elif it.get("exitname") == "Dual":
             cls += "Dual"
         elif it.get("exitname") == "Eq":
@@ -1131,7 +1150,7 @@ def compile_program(prog):
     src = r.render()
     fname = "<g1-prog>"
     linecache.cache[fname] = (len(src), None, src.splitlines(True), fname)
-    ns = {"M": M, "AM": AM, "MAlias": MAlias, "AMAlias": AMAlias, "MDeco": MDeco, "AMDeco": AMDeco, "MDual": MDual, "AMDual": AMDual, "MEq": MEq, "AMEq": AMEq, "E1": E1, "E2": E2, "NS": NS, "trap": trap, "probe": probe, "cprobe": functools.partial(probe), "noop": noop,
+    ns = {"M": M, "AM": AM, "MAlias": MAlias, "AMAlias": AMAlias, "MDeco": MDeco, "AMDeco": AMDeco, "MDual": MDual, "AMDual": AMDual, "MEq": MEq, "AMEq": AMEq, "AMDeleg": AMDeleg, "E1": E1, "E2": E2, "NS": NS, "trap": trap, "probe": probe, "cprobe": functools.partial(probe), "noop": noop,
           "FR": S.fr, "sys": sys, "tick": tick, "S": S, "kwget": kwget, "pick": pick, "getdct": getdct, "dead_proxy": dead_proxy, "LazyObject": LazyObject,
           "nameless_method": nameless_method, "GV": None,
           "__name__": "g1prog"}
